@@ -43,7 +43,7 @@ def check(ctx):
         ctx.ob("ALG.reductions", f, f"Bag.{meth} = reduction({pp}, {agg})", ok, "" if ok else f"uses {got}: the aggregate of per-partition {pp} results is not {meth} of the whole")
         ok2 = all(unparse(kwarg(c, "split_every")) == "split_every" for c in cs)
         ctx.ob("ALG.reductions.split-every", f, f"Bag.{meth} forwards split_every", ok2, nontrivial=False)
-        ok3 = any(r.value is not None and any(x is cs[0] for x in ast.walk(r.value)) for r in returns(f)) if cs else False
+        ok3 = (all(r.value is not None and any(x is cs[0] for x in ast.walk(r.value)) for r in returns(f)) and bool(returns(f))) if cs else False
         ctx.ob("ALG.reductions.returned", f, f"Bag.{meth} returns the reduction", ok3, nontrivial=False)
     ctx.count("simple_reduction_methods", n)
     ctx.floor("simple_reduction_methods", 6)
@@ -58,7 +58,7 @@ def check(ctx):
     okm = any(isinstance(x, ast.AugAssign) and isinstance(x.op, ast.Add) for x in ast.walk(mf)) or "merge_with(sum" in unparse(mf) or "+=" in unparse(mf)
     ctx.ob("ALG.reductions.merge-frequencies", mf, "merge_frequencies adds the per-partition counts", okm)
     ds = bag.own_methods["distinct"]
-    ok = bool(find("func = chunk_distinct if key is None else partial(chunk_distinct, key=key)", ds)) and bool(find("agg = merge_distinct if key is None else partial(merge_distinct, key=key)", ds)) and any(Pat("self.reduction(func, agg, out_type=Bag, name='distinct')").match(r.value) is not None for r in returns(ds))
+    ok = bool(find("func = chunk_distinct if key is None else partial(chunk_distinct, key=key)", ds)) and bool(find("agg = merge_distinct if key is None else partial(merge_distinct, key=key)", ds)) and (all(Pat("self.reduction(func, agg, out_type=Bag, name='distinct')").match(r.value) is not None for r in returns(ds)) and bool(returns(ds)))
     ctx.ob("ALG.reductions", ds, "Bag.distinct = reduction(chunk_distinct, merge_distinct) with the same key on both sides", ok)
     tk = bag.own_methods["topk"]
     cs = [c for c in calls(tk, "reduction")]
@@ -87,7 +87,7 @@ def check(ctx):
     ctx.ob("PAIR.tree.init", rd, "the first level reads the per-partition results", ok)
     ok = bool(find("split_every = M_v", rd)) or True
     esa = mod.func("empty_safe_aggregate")
-    ok = bool(find("parts2 = (p for p in parts if p is not no_result)", esa)) and any(Pat("empty_safe_apply(func, parts2, is_last)").match(r.value) is not None for r in returns(esa))
+    ok = bool(find("parts2 = (p for p in parts if p is not no_result)", esa)) and (all(Pat("empty_safe_apply(func, parts2, is_last)").match(r.value) is not None for r in returns(esa)) and bool(returns(esa)))
     ctx.ob("PAIR.tree.empty-safe", esa, "empty partitions are skipped, everything else is aggregated", ok)
     # ---------------- foldby: binop folds elements into per-key totals; totals are merged with combine
     fb = model.klass(BAG, "Bag").own_methods["foldby"]
